@@ -71,6 +71,9 @@ theorem writeAt_get_in (a : Bytes) (pos : Nat) (d : List UInt8) (i : Nat) (h : i
 
 /-! ### the frame relation -/
 
+@[simp] theorem gnew_trivial {g : Nat} {L : List Nat} {c : Nat} : (g ∈ L → g ∈ L ∨ c ≤ g) = True :=
+  eq_true fun h => Or.inl h
+
 /-- What no internal write step changes: the buffer below the cursor it started from, the
     buffer size, the limit bookkeeping, the counts and the configuration; the cursor only grows
     and stays below `available` if it was. -/
@@ -91,6 +94,8 @@ structure Ext (s s' : State) : Prop where
   tsig : s'.tsig = s.tsig
   /-- ghost: the set of recorded label starts only grows -/
   glab : ∀ g, g ∈ s.gLabels → g ∈ s'.gLabels
+  /-- ghost: label starts are only recorded at or above the cursor of the time -/
+  gnew : ∀ g, g ∈ s'.gLabels → g ∈ s.gLabels ∨ s.cursor ≤ g
 
 theorem Ext.refl (s : State) : Ext s s := by constructor <;> simp
 
@@ -115,6 +120,10 @@ theorem Ext.trans {a b c : State} (h1 : Ext a b) (h2 : Ext b c) : Ext a c := by
   · rw [h2.edns, h1.edns]
   · rw [h2.tsig, h1.tsig]
   · exact fun g hg => h2.glab g (h1.glab g hg)
+  · intro g hg
+    rcases h2.gnew g hg with h | h
+    · exact h1.gnew g h
+    · exact Or.inr (Nat.le_trans h1.cur h)
 
 /-- `f` is a frame: whatever its outcome, the state it leaves extends the state it started in -/
 def Frame {α} (f : M α) : Prop := ∀ s, Ext s (f s).2
@@ -161,10 +170,6 @@ theorem frame_tryPush (d : List UInt8) : Frame (tryPush d) := by
       · exact Ext.refl s
     · exact Ext.refl s
 
-theorem frame_ghostLabels (p : Nat) (l : List Label) (b : Bool) : Frame (ghostLabels p l b) := by
-  intro s; constructor <;> simp [ghostLabels]
-  intro g hg; exact Or.inr (Or.inr hg)
-
 theorem frame_setCtx (c : NameCtx) : Frame (setCtx c) := by
   intro s; constructor <;> simp [setCtx]
 
@@ -182,22 +187,94 @@ theorem frame_pushPointer (p : Nat) : Frame (pushPointer p) := by
   refine frame_gets_bind fun ev => frame_bind (frame_tryPush _) fun _ => ?_
   intro s'; constructor <;> simp
 
+theorem labelStartsFrom_le (c : Nat) (ls : List Label) : ∀ g ∈ labelStartsFrom c ls, c ≤ g := by
+  induction ls generalizing c with
+  | nil => intro g hg; simp [labelStartsFrom] at hg
+  | cons l ls ih =>
+    intro g hg
+    simp only [labelStartsFrom, List.mem_cons] at hg
+    rcases hg with rfl | hg
+    · exact Nat.le_refl _
+    · have := ih _ g hg; omega
+
+/-- `try_push` of (part of) a name followed by the ghost record of its label positions -/
+theorem ext_pushLabels (d : List UInt8) (l : List Label) (b : Bool) (s : State) :
+    Ext s ((tryPush d >>= fun _ => ghostLabels s.cursor l b) s).2 := by
+  simp only [M.bind_apply]
+  unfold tryPush
+  by_cases h1 : s.available < s.cursor
+  · rw [if_pos h1]; exact Ext.refl s
+  · rw [if_neg h1]
+    by_cases h2 : s.available - s.cursor ≥ d.length
+    · rw [if_pos h2]
+      by_cases h3 : s.cursor + d.length ≤ s.octets.size
+      · rw [if_pos h3]
+        simp only [ghostLabels, M.modify_apply]
+        constructor <;> simp
+        · omega
+        · intro i hi; exact writeAt_get_lt _ _ _ _ hi
+        · intro g hg; exact Or.inr (Or.inr hg)
+        · intro g hg
+          rcases hg with ⟨_, rfl⟩ | hg | hg
+          · right; omega
+          · right; exact labelStartsFrom_le _ _ g hg
+          · left; exact hg
+      · rw [if_neg h3]; exact Ext.refl s
+    · rw [if_neg h2]; exact Ext.refl s
+
 theorem frame_writeUncompressedName (n : WName) : Frame (writeUncompressedName n) := by
+  intro s
   unfold writeUncompressedName
-  exact frame_gets_bind fun s => frame_bind (frame_tryPush _) fun _ =>
-    frame_bind (frame_ghostLabels _ _ _) fun _ => frame_pure _
+  simp only [M.bind_apply, M.gets_apply]
+  have := ext_pushLabels n.wire n.labels true s
+  simp only [M.bind_apply] at this
+  cases h1 : tryPush n.wire s with
+  | mk r s1 =>
+    rw [h1] at this
+    cases r with
+    | ok u =>
+      simp only [] at this ⊢
+      cases h2 : ghostLabels s.cursor n.labels true s1 with
+      | mk r2 s2 =>
+        rw [h2] at this
+        cases r2 <;> exact this
+    | err e => exact this
+    | panic => exact this
 
 theorem frame_writeCompressedUnhintedName (n : WName) : Frame (writeCompressedUnhintedName n) := by
+  intro s
   unfold writeCompressedUnhintedName
-  refine frame_gets_bind fun d => frame_gets_bind fun cur => ?_
-  split
-  · exact frame_panic
-  · exact frame_panic
-  · exact frame_writeUncompressedName n
-  · split
-    · exact frame_bind (frame_pushPointer _) fun _ => frame_pure _
-    · exact frame_bind (frame_tryPush _) fun _ => frame_bind (frame_ghostLabels _ _ _) fun _ =>
-        frame_bind (frame_pushPointer _) fun _ => frame_pure _
+  simp only [M.bind_apply, M.gets_apply]
+  cases hd : compressDecision s.octets s.mode (s.mostRecentOwner.orElse fun _ => s.qname)
+      s.mostRecentNameInRdata n with
+  | panic => exact Ext.refl s
+  | err e => exact Ext.refl s
+  | ok r =>
+  cases r with
+  | none => exact frame_writeUncompressedName n s
+  | some m =>
+    simp only []
+    split
+    · exact frame_bind (frame_pushPointer _) (fun _ => frame_pure _) s
+    · have := ext_pushLabels (n.wireTo m.startColumn) (n.labels.take m.startColumn) false s
+      simp only [M.bind_apply] at this ⊢
+      cases h1 : tryPush (n.wireTo m.startColumn) s with
+      | mk r s1 =>
+        rw [h1] at this
+        cases r with
+        | ok u =>
+          simp only [] at this ⊢
+          cases h2 : ghostLabels s.cursor (n.labels.take m.startColumn) false s1 with
+          | mk r2 s2 =>
+            rw [h2] at this
+            cases r2 with
+            | ok u2 =>
+              simp only [] at this ⊢
+              exact Ext.trans this (frame_bind (frame_pushPointer _) (fun _ => frame_pure _) s2)
+            | err e => exact this
+            | panic => exact this
+        | err e => exact this
+        | panic => exact this
 
 theorem frame_writeUnhintedName (n : WName) : Frame (writeUnhintedName n) := by
   unfold writeUnhintedName
@@ -297,6 +374,7 @@ theorem ext_write_above {s s2 : State} (h : Ext s s2) (pos : Nat) (d : List UInt
     · exact h.edns
     · exact h.tsig
     · exact h.glab
+    · exact h.gnew
   · exact h
 
 theorem frame_writeRdata (cls ty : Nat) (rd : List UInt8) : Frame (writeRdata cls ty rd) := by
